@@ -32,6 +32,8 @@ void GMGPolar::solve()
     Level& level          = levels_[start_level_depth];
 
     number_of_iterations_ = 0;
+    residual_norms_.clear();
+    exact_errors_.clear();
 
     double initial_residual_norm;
     double current_residual_norm, current_relative_residual_norm;
